@@ -10,7 +10,7 @@ SPEC = dict(
     coq_targets=["props/C30.vo"],
     drivers=[
         dict(name="hist", kind="main", pkg="./zzverif/c30",
-             n=dict(quick=240, thorough=12000),
+             n=dict(quick=200, thorough=12000),
              ev=dict(requires=["V.lib.JsonTree", "V.models.Registry"], case_type="Registry.case",
                      mismatch="Registry.mismatch", monitor="Registry.monitor_fail")),
     ],
